@@ -37,6 +37,8 @@ type c10Defect struct {
 	NoValue bool
 	// Vars: variable definitions (no default, no value supplied) the defect needs on every operation
 	Vars []world.VarDef
+	// Cond: with Needs "frag", the type condition of the fragment FZq that is added (default: the undefined name Zq7)
+	Cond string
 }
 
 // dfxValues collects the non-null values found under the response key dfx.
@@ -91,6 +93,13 @@ func c10Defects() []c10Defect {
 		{Name: "misplaced-directive", Needs: "i", Make: func(*world.TypeDef) *world.Sel { return al(world.F("i")).With(world.Dir{Name: "deprecated"}) }},
 		{Name: "undefined-type-condition-inline", Make: func(td *world.TypeDef) *world.Sel { return world.In("Zq7", world.F("__typename")) }},
 		{Name: "undefined-type-condition-named", Needs: "frag", Make: func(td *world.TypeDef) *world.Sel { return world.Sp("FZq") }},
+		// names that are something, but not a type: a directive (built in, of the schema), a list of / a non-null undefined name
+		{Name: "undefined-type-condition-inline-directive-name", Make: func(td *world.TypeDef) *world.Sel { return world.In("skip", world.F("__typename")) }},
+		{Name: "undefined-type-condition-inline-list", Make: func(td *world.TypeDef) *world.Sel { return world.In("[Zq7]", world.F("__typename")) }},
+		{Name: "undefined-type-condition-inline-non-null", Make: func(td *world.TypeDef) *world.Sel { return world.In("Zq7!", world.F("__typename")) }},
+		{Name: "undefined-type-condition-named-directive-name", Needs: "frag", Cond: "deprecated", Make: func(td *world.TypeDef) *world.Sel { return world.Sp("FZq") }},
+		{Name: "undefined-type-condition-named-list", Needs: "frag", Cond: "[Zq7]", Make: func(td *world.TypeDef) *world.Sel { return world.Sp("FZq") }},
+		{Name: "undefined-type-condition-named-non-null", Needs: "frag", Cond: "Zq7!", Make: func(td *world.TypeDef) *world.Sel { return world.Sp("FZq") }},
 	}
 }
 
@@ -195,7 +204,11 @@ func runC10(c *core.Ctx) {
 					j++
 				})
 				if df.Needs == "frag" {
-					nd.Frags = append(nd.Frags, &world.Frag{Name: "FZq", Cond: "Zq7", Sels: []*world.Sel{world.F("__typename")}})
+					cond := df.Cond
+					if cond == "" {
+						cond = "Zq7"
+					}
+					nd.Frags = append(nd.Frags, &world.Frag{Name: "FZq", Cond: cond, Sels: []*world.Sel{world.F("__typename")}})
 				}
 				if len(df.Vars) > 0 {
 					for _, o := range nd.Ops {
